@@ -173,7 +173,12 @@ class PipeGen:
     def pipeline(self, n):
         reqs = [self.req() for _ in range(n)]
         k = self.rnd.random()
-        if k < 0.15:
+        if k < 0.08:
+            # a blocking pop queued in a transaction never blocks: its slot holds a nil (or the element), and the requests behind EXEC get their own replies
+            i = self.rnd.randrange(len(reqs))
+            reqs[i:i] = [[b'MULTI'], [self.rnd.choice([b'BLPOP', b'BRPOP']), b'nolist:' + self.marker()[:4], b'0'], [b'INCR', b'n'],
+                         [b'BLPOP', b'nolist2', b'nolist3', b'0.5'], [b'ECHO', self.marker()], [b'EXEC'], [b'ECHO', self.marker()]]
+        elif k < 0.15:
             i = self.rnd.randrange(len(reqs))
             reqs[i:i] = [[b'MULTI'], [b'INCR', b'n'], [b'GET', b'l'], [b'NOSUCH'], [b'EXEC']]
         elif k < 0.25:
